@@ -154,6 +154,7 @@ def checkCase (j : Json) : Except String Verdict := do
   let mut clock : Int := 0
   let mut chainLifetime : List (String × Int) := []
   let mut vdHist : List (String × Int) := []       -- host ↦ (time of the login or of the last passed revalidation) + V
+  let mut epExact : List String := []                -- hosts whose recorded episode start is known to be the first outage answer (it began from a known-fresh chain)
   let mut epFresh : List String := []                -- hosts for which the chain is known to have no outage episode open (login, or a confirmed check)
   let mut episode : List (String × Int) := []      -- host ↦ absolute time of the first outage-served check of the current episode
   let mut pageStructure : List (Nat × String) := []      -- status ↦ structure (the template branches on the code only)
@@ -390,16 +391,18 @@ def checkCase (j : Json) : Except String Verdict := do
             if kind == "outage" && !reached && ttlG > 0 && requestValidators lower P s then
               let inside := match episode.find? (·.1 == host) with
                 | none => epFresh.contains host          -- known fresh; an unknown past (a broken chain) proves nothing
-                | some (_, t0) => clock + 2 < t0 + ttlG
+                | some (_, t0) => epExact.contains host && clock + 2 < t0 + ttlG   -- a start recorded after a gap in the record may be late
               if inside then
                 v := v.mon "C05" "outage_within_grace_refused" idx s!"episode {(episode.find? (·.1 == host)).map (·.2)}, now {clock}, grace TTL {ttlG}, status {status}"
             if kind == "outage" && reached then
-              epFresh := epFresh.filter (· != host)
               match episode.find? (·.1 == host) with
-              | none => episode := (host, clock) :: episode
+              | none =>
+                episode := (host, clock) :: episode
+                epExact := if epFresh.contains host then host :: epExact.filter (· != host) else epExact.filter (· != host)
               | some (_, t0) =>
                 if !(clock < t0 + ttlG) then
                   v := v.mons ["C05", "C04", "C01"] "grace_outlives_ttl_from_first_failure" idx s!"first outage answer at {t0}, served on another at {clock}, grace TTL {ttlG}"
+              epFresh := epFresh.filter (· != host)
             else if kind != "none" then
               episode := episode.filter (·.1 != host)
               epFresh := epFresh.filter (· != host)
